@@ -62,6 +62,7 @@ def check(chk):
     for cname, key in SORTERS.items():
         cls = pm.cls(cname)
         _sort_key(chk, cls, key)
+        _rotated_importance(chk, cls, key)
         _sort_cover(chk, cls)
         _sort_state(chk, cls)
     _post_compute_callers(chk)
@@ -125,8 +126,25 @@ def _helper(chk, cls):
                     plain_ok = True
                 continue
             inv_ok = True
+            # inverse TRANSPOSE under named dimensions: the inverse is labelled with the input's dimensions in reversed order
+            au = invs[0].node
+            if (dotted(au.func) or "").endswith("apply_ufunc"):
+                kw = {k.arg: k.value for k in au.keywords if k.arg}
+                ic, oc = kw.get("input_core_dims"), kw.get("output_core_dims")
+
+                def rev_parity(e):
+                    return sum(1 for x in ast.walk(e) if isinstance(x, ast.Subscript) and isinstance(x.slice, ast.Slice) and x.slice.step is not None and norm(x.slice.step) == "-1") if e is not None else 0
+
+                base = lambda e: norm(e).replace("[::-1]", "").replace("(", "").replace(")", "") if e is not None else ""
+                rev_ok = ic is not None and oc is not None and base(ic) == base(oc) and (rev_parity(ic) + rev_parity(oc)) % 2 == 1
+            else:
+                rev_ok = p.has_op("attr", "T") or p.has_op("method", "transpose")
+            transposed = locals().get("transposed", False) or rev_ok
             conj_ok = conj_ok or (p.count("method", "conj") + p.count("method", "conjugate")) % 2 == 1 and (p.has_op("method", "transpose") or p.has_op("attr", "T"))
             guard_ok = guard_ok or any(power_gt_1(g) for g in ff.guards(invs[0].node))
+    chk.check(locals().get("transposed", False) or not inv_ok, "PAIR.helper.transpose", fn, fn.node, construct=f"{fn.qualname}: the inverse is transposed (output dims reversed)",
+              why="the inverse of the rotation matrix is not transposed: with named dimensions the transpose is the reversed order of output_core_dims; "
+                  "for an oblique (non-symmetric) rotation the scores are rotated with R^-1 instead of R^-T")
     chk.check(guard_ok and inv_ok and conj_ok and plain_ok, "PAIR.helper", fn, fn.node, construct=f"{fn.qualname}: power > 1 -> inv, conj, transpose",
               why=f"for power > 1 the helper must return the inverse conjugate transpose of the rotation matrix and the matrix itself otherwise (guard {guard_ok}, inverse {inv_ok}, conj-transpose {conj_ok}, identity for power 1 {plain_ok})")
     # the returned value is the (possibly replaced) parameter
@@ -226,6 +244,20 @@ def _pseudo_norm(chk, fit: FuncInfo, cname: str):
                               facts={"kind": kind, "N": src})
     if not found:
         raise AnalysisError(f"{fit.qualname}: pseudo-norm factor not found (anchor vanished)")
+
+
+def _rotated_importance(chk, cls, key: str):
+    """the quantity the rotated modes are ordered by (and that is reported as their variance / covariance) is computed
+    from the ROTATED loadings - the first result of the rotation call - not carried over from the unrotated model"""
+    fit = cls.methods["_fit_algorithm"]
+    ff = FuncFacts.of(fit)
+    imp, node = container_write(fit, key)
+    ps = ff.paths(imp, spine_only=True, follow=True)
+    from_rot = [p for p in ps if p.atom.kind == "call" and p.atom.name.split(".")[-1] in ("promax", "varimax", "_promax", "_varimax") and p.has_op("unpack", "0")]
+    squared = any((p.has_op("binop", "Pow") or p.has_op("binop", "Mult")) for p in from_rot)
+    chk.check(bool(from_rot) and squared, "NORM.rotated", fit, node, construct=f"{cls.name}: {key} computed from the rotated loadings",
+              why=f"{key!r} of the rotated model does not derive from the (squared) rotated loadings returned by the rotation: the rotated modes are ordered "
+                  "and labelled with the importance of the UNROTATED modes")
 
 
 def _sort_key(chk, cls, key: str):
